@@ -3,7 +3,7 @@
 Members are the atoms of maplib (i3 -> 3, s3 -> '3').  Operands carry their
 Python type: S[..] set, F[..] frozenset, L[..] list, G[..] generator; only on
 '#' lines (implementation + oracle): T = the receiver itself (aliasing),
-N = a non-iterable, and the atoms b1 / f1 / N / U of maplib inside operands.
+N = a non-iterable, E[..] = a generator that raises after its last item, and the atoms b1 / f1 / N / U of maplib inside operands.
 
 `po ?` is a pop whose result is not known yet: `resolve` in c07.py runs the
 history on the implementation and rewrites it to `po <member popped>` (DESIGN §4:
@@ -29,7 +29,7 @@ class Operand:
     def __init__(self, text):
         self.text = text
         self.kind = text[0]
-        self.items = parse_atoms(text[1:]) if self.kind in "SFLG" else None
+        self.items = parse_atoms(text[1:]) if self.kind in "SFLGE" else None
 
     def is_set(self):
         return self.kind in "SFT"
@@ -44,6 +44,12 @@ class Operand:
             return list(self.items)
         if self.kind == "G":
             return (x for x in self.items)
+        if self.kind == "E":               # a generator that raises after its last item
+            def gen(items=self.items):
+                for x in items:
+                    yield x
+                raise ValueError("operand raises midway")
+            return gen()
         if self.kind == "T":
             return receiver
         if self.kind == "N":
@@ -275,7 +281,7 @@ def malformed_history(rng):
             return "T"
         if r < 0.45:
             return "N"
-        k = rng.choice("SFLG")
+        k = rng.choice("SFLGE")
         items = [a() for _ in range(rng.randint(0, 3))]
         if k in "SF":
             items = [x for x in dict.fromkeys(items) if x != "U"]
